@@ -292,7 +292,11 @@ def prop_multistep(case, r):
     u0[:] = _np(case['u0'])
     t0, dt, nsteps = case['t0'], case['dt'], case['nsteps']
     r.label(case['cls'], f'steps{nsteps}', 'forced' if case['g'] else 'homogeneous')
-    uend, stats = ctrl.run(u0=u0, t0=t0, Tend=t0 + (nsteps - 0.5) * dt)
+    try:
+        uend, stats = ctrl.run(u0=u0, t0=t0, Tend=t0 + (nsteps - 0.5) * dt)
+    except np.linalg.LinAlgError:
+        r.discard('step system of the dense fixture exactly singular')
+        return
     us = get_sorted(stats, type='u', sortby='time')
     if not r.check(len(us) == nsteps, 'multistep-step-count', f'{len(us)} logged solutions for {nsteps} steps'):
         return
